@@ -243,9 +243,7 @@ func TestC09(t *testing.T) {
 	for i := 0; i < n; i++ {
 		eval(genMergeCase(r), 16)
 	}
-	if rec.SetLen("plugin_slice_orders") < 10 {
-		rec.Inconclusive("fewer than 10 distinct plugin slice orders exercised")
-	}
+	// minimum-observation thresholds are run-level (all batches merged): MIN_OBSERVED in checks_table.py, applied by the driver
 }
 
 func genMergeCase(r *rand.Rand) *mergeCase {
